@@ -1322,6 +1322,98 @@ pub fn run(args: &Args) {
         rec.case(&req, &line, v, nt);
     }
 
+    // ---- stream 3b: split hints (oracle only: the model has no hint) --------------------------
+    // `split_hint` seals the open file once it has reached the minimum file size; whatever comes
+    // next is still compared with the last key accepted, across the hint: out-of-order or duplicate
+    // input right after a sealing hint is refused, and the files concatenate to what was accepted.
+    for i in 0..(n_multi / 4).max(6) {
+        if !rec.wants() {
+            rec.skip();
+            continue;
+        }
+        let mut rng = Rng::for_case(args.seed, 13, i);
+        let style = *rng.pick(&[0u64, 1, 2, 3]);
+        let target = 12 + rng.below(20) as usize;
+        let es = gen_entries(&mut rng, style, target, false);
+        let (_, acc0) = reference_accept(&es);
+        let dir = format!("{}/h{}", tmp, rec.n);
+        let _ = std::fs::remove_dir_all(&dir);
+        std::fs::create_dir_all(&dir).unwrap();
+        let mut v: Vec<String> = vec!["--minimum-file-size".into(), "1".into(), "--target-file-size".into(), "1000000".into(), "--target-block-size".into(), "64".into()];
+        v.push("--bloom-filter-bits".into());
+        v.push("17".into());
+        let r: Vec<&str> = v.iter().map(|s| s.as_str()).collect();
+        let options = SstOptions::from_arguments_relaxed("blueharness", &r).0;
+        let mut mb = SstMultiBuilder::new(std::path::PathBuf::from(&dir), ".sst".to_string(), options.clone());
+        let mut fails: Vec<String> = vec![];
+        let mut accepted: Vec<E> = vec![];
+        let mut hints = 0;
+        for (j, e) in acc0.iter().enumerate() {
+            let r = guarded(Aus(|| match &e.val {
+                Some(v) => mb.put(&e.key, e.ts, v),
+                None => mb.del(&e.key, e.ts),
+            }));
+            if put_char(&r) != '.' {
+                fails.push(format!("a valid entry was refused at {}", j));
+                break;
+            }
+            accepted.push(e.clone());
+            if j % 3 == 2 {
+                if !matches!(guarded(Aus(|| mb.split_hint())), Ok(Ok(()))) {
+                    fails.push("split_hint failed".into());
+                }
+                hints += 1;
+                // right after the hint: the same entry again, and an older key, must be refused
+                let last = accepted.last().unwrap().clone();
+                for bad in [last.clone(), accepted[0].clone()] {
+                    let r = guarded(Aus(|| match &bad.val {
+                        Some(v) => mb.put(&bad.key, bad.ts, v),
+                        None => mb.del(&bad.key, bad.ts),
+                    }));
+                    if put_char(&r) == '.' {
+                        fails.push(format!("out-of-order input accepted right after a split hint (entry {} of {})", j, acc0.len()));
+                    }
+                }
+            }
+        }
+        let mut nfiles = 0;
+        match guarded(Aus(move || mb.seal())) {
+            Ok(Ok(paths)) => {
+                nfiles = paths.len();
+                let mut all: Vec<String> = vec![];
+                for p in &paths {
+                    let r = guarded(Aus(|| -> Result<Vec<String>, SError> {
+                        let t = Sst::<sst::file_manager::FileHandle>::new(options.clone(), p)?;
+                        let mut c = t.cursor();
+                        let mut v = vec![];
+                        c.seek_to_first()?;
+                        c.next()?;
+                        while c.key().is_some() {
+                            v.push(observe(&c));
+                            c.next()?;
+                        }
+                        Ok(v)
+                    }));
+                    match r {
+                        Ok(Ok(v)) => all.extend(v),
+                        _ => fails.push("a file written across split hints cannot be read".into()),
+                    }
+                }
+                let want_all: Vec<String> = accepted.iter().map(|e| show_e(Some(e))).collect();
+                if all != want_all {
+                    fails.push(format!("files do not concatenate to the accepted input: {}", first_diff(&all, &want_all)));
+                }
+            }
+            _ => fails.push("seal failed after split hints".into()),
+        }
+        let _ = std::fs::remove_dir_all(&dir);
+        rec.count("multi.split_hint_cases");
+        rec.add("multi.split_hints", hints);
+        rec.add("multi.split_hint_files", nfiles as u64);
+        let v = if fails.is_empty() { Verdict::Ok } else { Verdict::Fail { class: "multi-split-hint".into(), detail: trunc(&fails.join("; ")) } };
+        rec.case(&format!("# split hints {} entries {} hints", accepted.len(), hints), "#", v, None);
+    }
+
     // ---- stream 4: decisions at the limits ---------------------------------------------------
     for i in 0..n_dec {
         if !rec.wants() {
